@@ -256,6 +256,117 @@ fn ip_of(i: usize, public: bool) -> Ipv4Addr {
     }
 }
 
+/// A random multi-node history: 2..10 nodes of random modes and address plans join in random order
+/// from random live members, then random API calls on random nodes, crashes, loss, time gaps.  Judged
+/// by the multi-node model (every datagram, event and snapshot) and by the put-then-get monitor.
+pub fn random_round(out: &mut Out, rng: &mut Rng, t0: u64, round: usize) {
+    let mut net = Net::new(out, rng.next());
+    net.begin(t0);
+    net.drop_pct = *rng.pick(&[0u64, 0, 0, 5, 20]);
+    let n = 2 + rng.below(9) as usize;
+    let public = rng.chance(1, 2);
+    let configured = rng.chance(1, 2);
+    let mut servers: Vec<usize> = vec![];
+    for i in 0..n {
+        let server = i == 0 || rng.chance(2, 3);
+        let boot: Vec<SocketAddrV4> = if i == 0 {
+            if rng.chance(1, 5) { vec![SocketAddrV4::new(Ipv4Addr::new(10, 9, 9, 9), 6881)] } else { vec![] }
+        } else {
+            let k = 1 + rng.below(2) as usize;
+            (0..k).map(|_| SocketAddrV4::new(ip_of(if servers.is_empty() { 0 } else { *rng.pick(&servers) }, public), 6881)).collect()
+        };
+        net.add_node(if server { "s" } else { "c" }, &boot, ip_of(i, public), public && configured, rng.next() % 1_000_000 + 1);
+        if server {
+            servers.push(i);
+        }
+        net.run_for(*rng.pick(&[50u64, 300, 1200]) * MS, 5 * MS);
+    }
+    net.run_for(2 * SEC, 10 * MS);
+    let values: Vec<Vec<u8>> = (0..2).map(|k| format!("random {round} {k}").into_bytes()).collect();
+    let ihs: Vec<Id> = (0..2).map(|_| Id::from_bytes(rng.id20()).expect("id")).collect();
+    let pk = hex(key_from_seed(9).verifying_key().as_bytes());
+    let mut written: Vec<(usize, Vec<u8>)> = vec![];
+    for _ in 0..(6 + rng.below(10)) {
+        let alive: Vec<usize> = (0..n).filter(|i| net.alive[*i]).collect();
+        if alive.is_empty() {
+            break;
+        }
+        let i = *rng.pick(&alive);
+        let v = rng.pick(&values).clone();
+        let ih = *rng.pick(&ihs);
+        match rng.below(12) {
+            0 | 1 => {
+                let c = net.api(i, format!("put_imm v={}", hex(&v)));
+                net.settle(20 * SEC, 10 * MS);
+                if net.results(i, c).first().map(|r| r.contains(":ok:")).unwrap_or(false) {
+                    written.push((i, v));
+                }
+            }
+            2 | 3 => {
+                let target = imm_target(&v);
+                let before_alive = net.alive.clone();
+                let c = net.api(i, format!("get_imm t={}", hex(target.as_bytes())));
+                net.settle(20 * SEC, 10 * MS);
+                let found = net.results(i, c).first().map(|r| r.contains(":some:")).unwrap_or(false);
+                // C01 on small honest networks without loss: a live acknowledging node other than the reader
+                if net.drop_pct == 0 && !found && servers.len() <= 20 {
+                    for (w, wv) in written.iter() {
+                        if *wv == v && *w != i && before_alive == net.alive {
+                            let holders = net.holders(*w, &hex(target.as_bytes()), i);
+                            net.out.count(&format!("random-miss-with-holders={}", holders.len().min(2)));
+                        }
+                    }
+                }
+            }
+            4 => {
+                net.api(i, format!("announce ih={} port={}", hex(ih.as_bytes()), if rng.chance(1, 2) { "implied" } else { "7100" }));
+            }
+            5 => {
+                net.api(i, format!("get_peers ih={}", hex(ih.as_bytes())));
+            }
+            6 => {
+                let salt: Option<&[u8]> = if rng.chance(1, 2) { Some(b"salt") } else { None };
+                net.api(i, put_mut_call(9, rng.below(5) as i64, b"mm", salt, if rng.chance(1, 3) { Some(rng.below(5) as i64) } else { None }));
+            }
+            7 => {
+                net.api(i, format!("get_mut k={pk} salt={} seq=none", if rng.chance(1, 2) { hex(b"salt") } else { "none".into() }));
+            }
+            8 => {
+                net.api(i, sannounce_call(&ih, 5));
+            }
+            9 => {
+                net.api(i, format!("get_speers ih={}", hex(ih.as_bytes())));
+            }
+            10 => {
+                net.api(i, format!("find_node t={}", hex(ih.as_bytes())));
+            }
+            _ => {
+                if alive.len() > 2 && rng.chance(1, 2) {
+                    net.crash(i);
+                } else {
+                    net.run_for(*rng.pick(&[61u64, 320, 910]) * SEC, SEC);
+                }
+            }
+        }
+        match rng.below(3) {
+            0 => {
+                net.settle(20 * SEC, 10 * MS);
+            }
+            1 => net.run_for(50 * MS, 5 * MS),
+            _ => {}
+        }
+    }
+    net.settle(30 * SEC, 10 * MS);
+    for i in 0..n {
+        if net.alive[i] {
+            net.run(format!("n{i} snap"));
+        }
+    }
+    net.out.mark_distinct(net.rng.0 ^ 0x7a4d ^ round as u64);
+    net.out.count("random-net");
+    net.s.shutdown();
+}
+
 pub fn run(out: &mut Out, seed: u64, thorough: bool, replay: Option<&str>) {
     if let Some(p) = replay {
         let mut s = MnetStream::new();
@@ -265,6 +376,14 @@ pub fn run(out: &mut Out, seed: u64, thorough: bool, replay: Option<&str>) {
     }
     let mut rng = Rng::new(seed ^ 0x3e7);
     let mut t0 = 9_000_000_000_000_000u64;
+    // hunting mode (not used by the registered checks): only random histories, many of them
+    if let Some(n) = std::env::var("MVH_CHAOS").ok().and_then(|n| n.parse::<usize>().ok()) {
+        for round in 0..n {
+            t0 += 100_000_000_000_000;
+            random_round(out, &mut rng, t0, round);
+        }
+        return;
+    }
     // (servers, clients, public addresses, public address configured): with public addresses that are
     // not configured, every node learns its address from its peers' votes, confirms it by self-ping
     // and re-keys (BEP42) while the network forms
@@ -526,6 +645,11 @@ pub fn run(out: &mut Out, seed: u64, thorough: bool, replay: Option<&str>) {
         }
         net.out.mark_distinct(net.rng.0 ^ 0xdead ^ joiners as u64);
         net.s.shutdown();
+    }
+    // ---- random histories
+    for round in 0..(if thorough { 24 } else { 5 }) {
+        t0 += 100_000_000_000_000;
+        random_round(out, &mut rng, t0, round);
     }
     out.sample("case mnet: node 0 (first, no bootstrap), node i bootstraps from node 0; n<i> step from=<addr> re=<key> msg=<hex> delivers one datagram; put on the last node, get on another".into());
 }
